@@ -3,8 +3,9 @@ import SaModel.Lemmas.C18BlameUnion
 C18, blame against the specification: the mutual recursion over the serde value.
 
 `frag x`: the fragment of serde values covered so far — `Some` / newtype layers, `None`, unit, all scalars, bytes,
-sequences (into list / large list / fixed-size list builders, and refused by every other builder) and struct records
-(`serialize_struct`), nested arbitrarily.  NOT yet covered: tuples / tuple structs, maps, and the four variant calls.
+sequences (into list / large list / fixed-size list builders, and refused by every other builder), struct records
+(`serialize_struct`), unit and newtype variants (into union builders, refused by the others), nested arbitrarily.
+NOT yet covered: tuples / tuple structs, maps, tuple and struct variants.
 -/
 namespace SaModel.Props.C18
 open SaModel SaModel.Build SaModel.Spec
